@@ -592,7 +592,7 @@ def run(ctx):
     try:
         text, changed = tt_unit.generate(VERIF, REPO)
         ctx.notes["translator"] = {"generated": "coq/gen/TTGen.v", "changed_this_run": bool(changed),
-                                   "functions": text.count("\nDefinition ") - text.count("_noovf "), "seconds": round(time.time() - t0, 1)}
+                                   "functions": text.count("_noovf ") , "seconds": round(time.time() - t0, 1)}
     except TranslatorError as ex:
         tie_broken = True
         replay["translator_error"] = str(ex)
@@ -707,6 +707,8 @@ def run(ctx):
             for op in ops[1:]:
                 ctx.nontrivial(ops[0] + op)
         f = spec_check_session(ops, a)
+        if f:
+            f["ops"] = ops[:f["op_index"] + 1]
         note_spec(f, "session:%s" % ";".join((f or {}).get("op", "").split()[:2]))
         if kind == "tb":
             sums = [l for l in a if l.startswith("T ")]
@@ -739,6 +741,7 @@ def run(ctx):
     n_ham = ctx.scale(40, 600)
     ham_ops = ctx.scale(400, 1500)
     total_blend = []
+    validation_failed = False
     for i in range(n_ham):
         threads = rng.choice([2, 3, 4, 8, 12, 16])
         size = rng.choice([512, 516, 1000, 1024, 65536])
@@ -763,9 +766,10 @@ def run(ctx):
         if bl:
             total_blend.append((args, bl))
             note_spec(dict(kind=bl[0]["kind"], hammer_args=args, first=bl[0], count=len(bl)), "blend:%s" % bl[0].get("key"))
-        if ml_exe:
+        if ml_exe and not validation_failed:
             v, e = hammer_validate(ml_exe, h)
             if v is None:
+                validation_failed = True     # do not spend the budget on further runs of a broken validator
                 disagreements.append(dict(kind="hammer-validate", args=args, note=e))
             else:
                 ctx.traces_validated += v["validated"]
@@ -773,6 +777,7 @@ def run(ctx):
                 if not v["fixpoint"]:
                     disagreements.append(dict(kind="hammer-closure", args=args, note="refresh closure did not reach a fixed point"))
                 if v["bad"]:
+                    validation_failed = True
                     disagreements.append(dict(kind="hammer-trace", args=args, not_allowed_by_Atomic_v=v["bad"][:5], count=len(v["bad"])))
     ctx.notes["distribution"] = {"leaf_tuples": n_leaf, "index_tuples": per * len(sizes), "sessions": len(sessions), "hammer_runs": n_ham}
 
@@ -788,6 +793,8 @@ def run(ctx):
             rc1, rc2, a, b, _, _ = run_both(cpp_exe, ml_exe, small, timeout=120)
             d0 = dict(d0, ops=small, original_ops=d0["ops"], cpp=a, model=b)
             f = spec_check_session(small, a)
+            if f:
+                f["ops"] = small[:f["op_index"] + 1]
             note_spec(f, "session:%s" % ";".join((f or {}).get("op", "").split()[:2]))
         replay["disagreement"] = d0
         replay["disagreement_count"] = len(disagreements)
@@ -838,8 +845,22 @@ def replay(ctx, body):
     ops = f.get("ops") or d.get("ops")
     if not ops and f.get("op"):
         ops = (d.get("ops") or [])
-    if f.get("kind", "").startswith(("mate score", "setScore", "get after", "a setter")):
-        print("failing input:", f)
+    if f.get("kind", "").startswith(("mate score", "setScore")):
+        d, sc, p1, p2 = unhx(f["data"]), f["score"], f.get("stored_at_ply", f.get("ply")), f.get("read_at_ply", 0)
+        rc, out, err = sh([cpp_exe, "session"], input="L setScore 0 %s %s %s\n" % (hx(d), hx(sc), hx(p1)))
+        d2 = unhx(out.split()[1])
+        rc, out, err = sh([cpp_exe, "session"], input="L getScore 0 %s %s\n" % (hx(d2), hx(p2)))
+        print("setScore(data=%x, score=%d, ply=%d) -> data %x; getScore(ply=%d) -> %d; specification: %d" %
+              (d, sc, p1, d2, p2, unhx(out.split()[1]), spec_shift(sc, p1, p2)))
+        return
+    if f.get("kind", "").startswith(("get after", "a setter")):
+        d, v, nm = unhx(f["data"]), f["value"], f["accessor"]
+        rc, out, err = sh([cpp_exe, "session"], input="L set%s 0 %s %s\n" % (nm, hx(d), hx(v)))
+        d2 = unhx(out.split()[1])
+        rc, out, err = sh([cpp_exe, "session"], input="L get%s 0 %s\n" % (nm, hx(d2)))
+        print("set%s(data=%x, %d) -> data %x; get%s -> %d" % (nm, d, v, d2, nm, unhx(out.split()[1])))
+        print("fields before:", {k: field(d, k) for k in SPEC_LAYOUT})
+        print("fields after: ", {k: field(d2, k) for k in SPEC_LAYOUT})
         return
     if ops:
         rc, out, err = sh([cpp_exe, "session"], input="\n".join(ops) + "\n", timeout=300)
